@@ -205,6 +205,18 @@ func (rr *renderer) trivia(f *fileBuf, ind string, id int, where string) {
 	}
 }
 
+// triviaSite: trivia at a site inside a directive (before its parenthesis, before its body), rarer than between directives.
+func (rr *renderer) triviaSite(f *fileBuf, ind string, id int, where string) {
+	if rr.l.Plain || rr.l.PTrivia == 0 || !rr.l.ch(id, "site-"+where, 5) {
+		return
+	}
+	before := rr.out.Features["trivia"]
+	rr.trivia(f, ind, id, where)
+	if rr.out.Features["trivia"] > before {
+		rr.out.Features["trivia-"+where]++
+	}
+}
+
 func (rr *renderer) indentFor(depth int) string {
 	return strings.Repeat(rr.l.Unit, depth)
 }
@@ -258,6 +270,7 @@ func (rr *renderer) renderList(f *fileBuf, dirs []*Dir, depth int) {
 		}
 		// head line
 		f.afterText = false
+		f.afterBody = false // from the keyword on the API scanner reads the text again
 		f.sb.WriteString(ind)
 		kb := f.off()
 		f.sb.WriteString(d.Kw)
@@ -344,6 +357,7 @@ func (rr *renderer) renderList(f *fileBuf, dirs []*Dir, depth int) {
 		}
 		textParens := d.Kw == "Description" && l.ch(d.ID, "textparens", l.PExplicit)
 		if explicit {
+			rr.triviaSite(f, ind, d.ID, "preparen")
 			f.sb.WriteString(ind)
 			f.spans = append(f.spans, Span{'(', f.off(), f.off()})
 			f.sb.WriteString("(")
@@ -382,6 +396,8 @@ func (rr *renderer) renderList(f *fileBuf, dirs []*Dir, depth int) {
 				f.spans = append(f.spans, Span{'T', tb, te})
 				f.afterText = !textParens
 			} else {
+				// comments and blank lines between the keyword line (or the parenthesis) and the body
+				rr.triviaSite(f, bind, d.ID, "prebody")
 				code := byte('S')
 				if d.BodyKind == "enum" {
 					code = 'E'
